@@ -38,7 +38,7 @@ CHECKS = {
             "DESIGN.md 5/C06"),
     "C07": ("exploration",
             "stateful model-based proptest: operation histories on the Interpreter vs a reference simulator",
-            "Generated systems and histories of init/set/step/get/snapshot/restore are executed on patronus::sim::Interpreter and on a reference model built on the independent evaluator; every observable expression is compared after every operation. Sampling of systems x histories, not proof.",
+            "Generated systems and histories of init/set/step/get/snapshot/restore are executed on patronus::sim::Interpreter and on a reference model built on the independent evaluator; the observable expressions are compared after every operation (in half of the histories only sparsely: some operations without reads, random subsets, so that state kept between two reads can go stale); set also overwrites states; both file-less constructors. Sampling of systems x histories, not proof.",
             "Trusts refeval/refsim. Inputs after restore are re-synchronised by reading them back (the property promises states only).",
             "DESIGN.md 5/C07"),
     "C08": ("exploration",
@@ -58,7 +58,7 @@ CHECKS = {
             "DESIGN.md 5/C10"),
     "C11": ("exploration",
             "proptest over generated systems; metamorphic oracle: function-by-function reference evaluation + lock-step reference simulation",
-            "Generated systems are transformed by simplify_expressions / replace_anonymous_inputs_with_zero and compared with the original function by function under all (<= 14 bits) or sampled assignments, by 4-step lock-step reference simulation, by symbol scans and by name checks. Sampling, not proof.",
+            "Generated systems are transformed by simplify_expressions / replace_anonymous_inputs_with_zero and compared with the original function by function under all (<= 14 bits) or sampled assignments, by 4-step lock-step reference simulation, by symbol scans and by name checks; in a third of the cases further transformations are applied to the result (a history on one system). Sampling, not proof.",
             "Trusts refeval/refsim.",
             "DESIGN.md 5/C11"),
     "C15": ("fault_enumeration",
@@ -93,12 +93,12 @@ CHECKS = {
             "DESIGN.md 5/C18"),
     "C12": ("exploration",
             "stateful model-based proptest: construction histories vs shadow structural map",
-            "Histories of up to 300 Context construction calls with bulk insertions and re-issues are replayed against a shadow map structural-key <-> ExprRef; every call and periodic audits check canonicity, stability of every reference ever obtained, and the true/false constants. Sampling of histories, not proof.",
+            "Histories of up to 300 Context construction calls (direct builder methods and the Context::build facade, names from a list and from a tiny alphabet so that look-alikes meet) with bulk insertions and re-issues are replayed against a shadow map structural-key <-> ExprRef; every call and periodic audits check canonicity, stability of every reference ever obtained, and the true/false constants. Sampling of histories, not proof.",
             "Trusts the harness' structural key function (mirrors the documented builder normalisations).",
             "DESIGN.md 5/C12"),
     "C13": ("exploration",
             "proptest over batches and permutations; differential oracle between call histories / cache containers; watchdog for termination",
-            "Batches of expressions sharing sub-terms are simplified alone, in permuted batch order, with sparse and dense caches and repeatedly; all results must be the same reference and idempotent. Termination is judged by a 10 s + 60 s re-run watchdog (typical case < 1 ms). Sampling, not proof; non-termination can only be observed up to the watchdog bound.",
+            "Batches of expressions sharing sub-terms (now and then with one root of several hundred rewritable terms) are simplified alone, in permuted batch order, with sparse and dense caches and repeatedly; all results must be the same reference and idempotent. Termination is judged by a 10 s + 60 s re-run watchdog (typical case < 1 ms). Sampling, not proof; non-termination can only be observed up to the watchdog bound.",
             "Elapsed time > 60 s for one batch is taken as non-termination (4 orders of magnitude margin).",
             "DESIGN.md 5/C13"),
     "C14": ("exploration",
